@@ -1,7 +1,7 @@
 #!/bin/bash
 # run_harmless.sh — behaviour-preserving edits of /repo: no check may print VIOLATION (exit 0 expected; exit 2 = undecided is tolerated and listed)
 cd /verif
-declare -A PROP=( [h1]="C06" [h2]="C02 C05" [h3]="C07" [h4]="C04" [h5]="C14" [h6]="C03" [h7]="C07" [h8]="C03" [h9]="C06" [h10]="C04 C06" [h11]="C03" [h12]="C02 C05" [h13]="C04" [h14]="C07" [h15]="C06 C02" [h16]="C04 C06" [h17]="C07 C14" [h18]="C03" [h19]="C07" [h20]="C04" [h21]="C04" [h22]="C04 C02" [h23]="C04" [h24]="C06" [h25]="C03" [h26]="C04" [h27]="C14 C05" [h28]="C02" [h29]="C03" [h30]="C02 C05" [h31]="C07" [h32]="C02 C03" [h33]="C03 C05" [h34]="C04" )
+declare -A PROP=( [h1]="C06" [h2]="C02 C05" [h3]="C07" [h4]="C04" [h5]="C14" [h6]="C03" [h7]="C07" [h8]="C03" [h9]="C06" [h10]="C04 C06" [h11]="C03" [h12]="C02 C05" [h13]="C04" [h14]="C07" [h15]="C06 C02" [h16]="C04 C06" [h17]="C07 C14" [h18]="C03" [h19]="C07" [h20]="C04" [h21]="C04" [h22]="C04 C02" [h23]="C04" [h24]="C06" [h25]="C03" [h26]="C04" [h27]="C14 C05" [h28]="C02" [h29]="C03" [h30]="C02 C05" [h31]="C07" [h32]="C02 C03" [h33]="C03 C05" [h34]="C04" [h35]="C04 C06" [h36]="C02 C14" [h37]="C02" )
 for f in tools/harmless/*.diff; do
   id=$(basename $f .diff); key=${id%%_*}
   git -C /repo checkout -q -- .
